@@ -761,6 +761,12 @@ func buildersReadOnlyTheirOwnTables(c *Ctx, rule string) {
 		if len(reads) == 0 && len(writes) == 0 {
 			continue
 		}
+		// a method that changes nothing in the policy (directly or through the module functions it calls) registers
+		// nothing: a pure accessor may read whatever it reports on
+		if len(writes) == 0 && len(tableWritesOf(c, fn)) == 0 && !storesPolicyField(fn) {
+			R.OK(rule, "reader:"+pa.CalleeName(fn), pa.CalleeName(fn)+": reads rule tables, updates nothing", c.P.Pos(fn.Pos()), "not a builder: no store into a Policy field, no table update, directly or through callees")
+			continue
+		}
 		n++
 		var bad []string
 		for f, where := range reads {
@@ -1179,6 +1185,50 @@ func patternsAsRegistered(c *Ctx, rule string) {
 	R := c.R
 	n := 0
 	isRe := func(t types.Type) bool { return t.String() == "*regexp.Regexp" }
+	// the struct types in question: the rule types (element types of the lists held in the Policy's tables) and the
+	// builder types (receivers of the module's methods that update those tables) — not a table of rows a constructor
+	// happens to loop over
+	relevant := map[string]bool{}
+	var addRuleTypes func(t types.Type, d int)
+	addRuleTypes = func(t types.Type, d int) {
+		if d > 4 {
+			return
+		}
+		switch x := t.(type) {
+		case *types.Map:
+			addRuleTypes(x.Elem(), d+1)
+		case *types.Slice:
+			addRuleTypes(x.Elem(), d+1)
+		case *types.Named:
+			if _, isStruct := x.Underlying().(*types.Struct); isStruct && x.Obj().Pkg() != nil && x.Obj().Pkg().Path() == "github.com/microcosm-cc/bluemonday" {
+				relevant[x.String()] = true
+			}
+		}
+	}
+	for _, fn := range moduleFuncs(c.P) {
+		if fn.Pkg == nil || fn.Pkg.Pkg.Path() != "github.com/microcosm-cc/bluemonday" || fn.Signature.Recv() == nil {
+			continue
+		}
+		rt := fn.Signature.Recv().Type()
+		if pt, ok := rt.(*types.Pointer); ok {
+			rt = pt.Elem()
+		}
+		nt, ok := rt.(*types.Named)
+		if !ok {
+			continue
+		}
+		if nt.Obj().Name() == "Policy" {
+			if st, ok := nt.Underlying().(*types.Struct); ok {
+				for i := 0; i < st.NumFields(); i++ {
+					addRuleTypes(st.Field(i).Type(), 0)
+				}
+			}
+			continue
+		}
+		if len(tableWritesOf(c, fn)) > 0 {
+			relevant[nt.String()] = true
+		}
+	}
 	for _, fn := range moduleFuncs(c.P) {
 		if fn.Pkg == nil || fn.Pkg.Pkg.Path() != "github.com/microcosm-cc/bluemonday" || fn.Name() == "init" && fn.Signature.Recv() == nil {
 			continue
@@ -1192,6 +1242,13 @@ func patternsAsRegistered(c *Ctx, rule string) {
 				}
 				fa, ok := st.Addr.(*ssa.FieldAddr)
 				if !ok {
+					continue
+				}
+				owner := fa.X.Type()
+				if pt, isPtr := owner.Underlying().(*types.Pointer); isPtr {
+					owner = pt.Elem()
+				}
+				if !relevant[owner.String()] {
 					continue
 				}
 				n++
@@ -1250,4 +1307,166 @@ func patternsAsRegistered(c *Ctx, rule string) {
 		}
 	}
 	R.Role(rule, "stores into regexp fields of builders and rules", n, 3)
+}
+
+// storesPolicyField: fn (or a module function it calls, init excluded, depth-bounded) stores into a field of a Policy.
+func storesPolicyField(fn *ssa.Function) bool {
+	seen := map[*ssa.Function]bool{}
+	var visit func(f *ssa.Function, d int) bool
+	visit = func(f *ssa.Function, d int) bool {
+		if f == nil || seen[f] || d > 4 || len(f.Blocks) == 0 {
+			return false
+		}
+		seen[f] = true
+		for _, b := range f.Blocks {
+			for _, in := range b.Instrs {
+				switch x := in.(type) {
+				case *ssa.Store:
+					if model.PolicyField(x.Addr) != "" {
+						return true
+					}
+				case ssa.CallInstruction:
+					cal := x.Common().StaticCallee()
+					if cal == nil || cal.Pkg == nil || cal.Pkg.Pkg.Path() != "github.com/microcosm-cc/bluemonday" {
+						continue
+					}
+					if cal.Name() == "init" && cal.Signature.Recv() != nil {
+						continue
+					}
+					if visit(cal, d+1) {
+						return true
+					}
+				}
+			}
+		}
+		return false
+	}
+	return visit(fn, 0)
+}
+
+// newPolicyAllowsNothing (C01.R11): what every policy starts from allows no element.  Neither NewPolicy nor init() —
+// nor anything they call — adds an entry to the element table, the element-pattern table or the global attribute table
+// (they only create the tables, and fill the two default sets: elements that may appear without attributes once they are
+// allowed, and elements whose content is skipped).  A default registered through the ordinary builders
+// (AllowNoAttrs().OnElements(...)) would put the elements on every policy's allowlist.
+func newPolicyAllowsNothing(c *Ctx, rule string) {
+	R := c.R
+	F := model.FindFields(c.P)
+	guarded := map[string]string{}
+	for _, r := range []string{"elsAndAttrs", "elsMatchingAndAttrs", "globalAttrs"} {
+		if f := F.Get(r); f != "" {
+			guarded[f] = r
+		}
+	}
+	n := 0
+	for _, name := range []string{"NewPolicy", "(*Policy).init"} {
+		fn := c.P.Func("github.com/microcosm-cc/bluemonday", name)
+		if fn == nil {
+			R.Unknown(rule, "fresh:"+name, name, "", "function not found")
+			continue
+		}
+		n++
+		var bad []string
+		seen := map[*ssa.Function]bool{}
+		var visit func(f *ssa.Function, via string, d int)
+		visit = func(f *ssa.Function, via string, d int) {
+			if f == nil || seen[f] || d > 5 || len(f.Blocks) == 0 {
+				return
+			}
+			seen[f] = true
+			for _, b := range f.Blocks {
+				for _, in := range b.Instrs {
+					switch x := in.(type) {
+					case *ssa.MapUpdate:
+						if fld := model.LoadedPolicyField(x.Map); guarded[fld] != "" {
+							bad = append(bad, fld+" (entry added at "+via+c.P.Pos(x.Pos())+")")
+						}
+					case ssa.CallInstruction:
+						cal := x.Common().StaticCallee()
+						if cal == nil || cal.Pkg == nil || cal.Pkg.Pkg.Path() != "github.com/microcosm-cc/bluemonday" {
+							continue
+						}
+						visit(cal, via+pa.CalleeName(cal)+" → ", d+1)
+					}
+				}
+			}
+		}
+		visit(fn, "", 0)
+		sort.Strings(bad)
+		R.Check(len(bad) == 0, rule, "fresh:"+name, name+": entries added to the element / pattern / global attribute tables", c.P.Pos(fn.Pos()), fmt.Sprintf("none (in %d functions reached)", len(seen)), "every new policy already allows something: "+strings.Join(bad, ", "))
+	}
+	R.Role(rule, "policy-creating functions examined", n, 2)
+}
+
+// pairedSettersAgree (C17.R12): where one exported method of *Policy adds keys to a table and another removes them
+// (SkipElementsContent / AllowElementsContent), each is the other's undo: both update exactly the same tables.  A second
+// table that only one of the two knows about (an override set consulted first) makes the earlier call win over the later
+// one — the option no longer reflects its most recent setting.
+func pairedSettersAgree(c *Ctx, rule string) {
+	R := c.R
+	type acc struct{ adds, dels map[string]bool }
+	per := map[*ssa.Function]*acc{}
+	var fns []*ssa.Function
+	for _, fn := range moduleFuncs(c.P) {
+		if fn.Pkg == nil || fn.Pkg.Pkg.Path() != "github.com/microcosm-cc/bluemonday" || fn.Signature.Recv() == nil || !isPolicyPtr(fn.Signature.Recv().Type()) || fn.Object() == nil || !fn.Object().Exported() {
+			continue
+		}
+		a := &acc{adds: map[string]bool{}, dels: map[string]bool{}}
+		for _, b := range fn.Blocks {
+			for _, in := range b.Instrs {
+				switch x := in.(type) {
+				case *ssa.MapUpdate:
+					if f := model.LoadedPolicyField(x.Map); f != "" {
+						a.adds[f] = true
+					}
+				case *ssa.Call:
+					if bi, ok := x.Common().Value.(*ssa.Builtin); ok && bi.Name() == "delete" && len(x.Common().Args) == 2 {
+						if f := model.LoadedPolicyField(x.Common().Args[0]); f != "" {
+							a.dels[f] = true
+						}
+					}
+				}
+			}
+		}
+		if len(a.adds)+len(a.dels) > 0 {
+			per[fn] = a
+			fns = append(fns, fn)
+		}
+	}
+	sortFuncs(fns)
+	n := 0
+	for _, d := range fns {
+		if len(per[d].dels) == 0 {
+			continue
+		}
+		for _, s := range fns {
+			if s == d {
+				continue
+			}
+			shared := false
+			for t := range per[d].dels {
+				if per[s].adds[t] && len(per[s].dels) == 0 {
+					shared = true
+				}
+			}
+			if !shared {
+				continue
+			}
+			n++
+			touched := func(a *acc) []string {
+				m := map[string]bool{}
+				for t := range a.adds {
+					m[t] = true
+				}
+				for t := range a.dels {
+					m[t] = true
+				}
+				return sortedKeys(m)
+			}
+			ts, td := touched(per[s]), touched(per[d])
+			R.Check(strings.Join(ts, ",") == strings.Join(td, ","), rule, "pair:"+pa.CalleeName(s)+"/"+pa.CalleeName(d), pa.CalleeName(s)+" adds what "+pa.CalleeName(d)+" removes", c.P.Pos(d.Pos()), "both update exactly the tables "+strings.Join(ts, ", "),
+				fmt.Sprintf("the two are not each other's undo: %s updates {%s}, %s updates {%s} — a call of the one does not take back everything the other recorded, so the earlier call can win over the later one", pa.CalleeName(s), strings.Join(ts, ", "), pa.CalleeName(d), strings.Join(td, ", ")))
+		}
+	}
+	R.Role(rule, "pairs of an adding and a removing setter on one table", n, 1)
 }
